@@ -45,12 +45,11 @@ var twin = gen.Twin{New: func() func() bool {
 const jsonTail = `,"x":[1]}]`
 
 func run(t fataler, src string) ([]unit, string, error) {
-	in, whole := gen.Embedded([]byte(src), jsonTail)
-	input := parse.NewInputBytes(in)
+	input, how, check := gen.Supply([]byte(src), jsonTail)
 	defer func() {
 		input.Restore()
-		if ok, rest := gen.CheckEmbedded(in, whole, jsonTail, true); !ok || string(in) != src {
-			t.Fatalf("parsing %q changed the caller's buffer: %q + %q", src, in, rest)
+		if ok, rest := check(true); !ok {
+			t.Fatalf("parsing %q (%s) changed the caller's buffer: %q", src, how, rest)
 		}
 	}()
 	p := json.NewParser(input)
@@ -70,7 +69,38 @@ func run(t fataler, src string) ([]unit, string, error) {
 		twin.Step()
 		gen.Extend(data)
 		if gt == json.ErrorGrammar {
-			return units, out.String(), p.Err()
+			err := p.Err()
+			if err == io.EOF {
+				// at the end of the data State() still describes the innermost container that is open
+				st := p.State()
+				switch {
+				case len(stack) == 0 && st != json.ValueState, len(stack) > 0 && stack[len(stack)-1] == '[' && st != json.ArrayState,
+					len(stack) > 0 && stack[len(stack)-1] == '{' && st != json.ObjectKeyState && st != json.ObjectValueState:
+					t.Fatalf("%q (%s): State() = %v at the end of the data, the open containers are %q", src, how, st, stack)
+				}
+				if len(stack) > 0 {
+					return units, out.String(), err // cut off inside a container: what further calls report is C01's subject
+				}
+				if gt2, _ := p.Next(); gt2 != json.ErrorGrammar || p.Err() != io.EOF || p.State() != st {
+					t.Fatalf("%q (%s): a further Next() at the end of the data gives %v, Err() %v, State() %v (was %v)", src, how, gt2, p.Err(), p.State(), st)
+				}
+				// the same input once more from the start (Reset is documented to go back to the beginning)
+				input.Reset()
+				p2 := json.NewParser(input)
+				for i := 0; ; i++ {
+					gt2, data2 := p2.Next()
+					if gt2 == json.ErrorGrammar {
+						if i != len(units) || p2.Err() != io.EOF {
+							t.Fatalf("%q (%s): a second pass over the same input behind Reset() ends after %d units with %v, the first pass gave %d units", src, how, i, p2.Err(), len(units))
+						}
+						break
+					}
+					if i >= len(units) || units[i].gt != gt2 || units[i].data != string(data2) {
+						t.Fatalf("%q (%s): unit %d of a second pass behind Reset() is %v %q, the first pass gave %v", src, how, i, gt2, data2, units)
+					}
+				}
+			}
+			return units, out.String(), err
 		}
 		_ = p.Err() // polled after every call: reading the error state must not disturb the parser
 		units = append(units, unit{gt, string(data)})
